@@ -3,7 +3,7 @@
    ENIs); the ipvlan, exclusive-ENI and vlan datapaths are judged by the clauses on their generators' output only
    (their link types do not exist here) — the level of this property is partial. *)
 From Coq Require Import ZArith List Bool.
-From TV Require Import DpModel DpProofs DpProofs2.
+From TV Require Import DpModel DpProofs DpProofs2 DpProofs3.
 Import ListNotations.
 Local Open Scope Z_scope.
 
@@ -46,6 +46,17 @@ Theorem c13_one_default_route_partial : forall g li f, 0 <= li -> (f = 4 \/ f = 
   if (if f =? 4 then g_on4 g else g_on6 g) && g_def g then 1%nat else 0%nat.
 Proof. exact cont_one_default. Qed.
 Print Assumptions c13_one_default_route_partial.
+
+(* the ipvlan datapath's pod side (its generator is compared field by field with DpModel.ipvlan_cont_cfg): a pod on a
+   trunk member interface holds host addresses only, and there is exactly one default route per enabled family *)
+Theorem c13_ipvlan_trunk_host_addresses_partial : forall g, g_strip g = true ->
+  Forall (fun a => match a with [f; _; l] => l = maxlen f | _ => False end) (ipvlan_addrs g).
+Proof. exact ipvlan_trunk_host_addresses. Qed.
+Print Assumptions c13_ipvlan_trunk_host_addresses_partial.
+Theorem c13_ipvlan_one_default_route_partial : forall g li f, 0 <= li -> (f = 4 \/ f = 6) ->
+  length (filter (is_def f) (ipvlan_routes g li)) = if (if f =? 4 then g_on4 g else g_on6 g) && g_def g then 1%nat else 0%nat.
+Proof. exact ipvlan_one_default. Qed.
+Print Assumptions c13_ipvlan_one_default_route_partial.
 
 (* non-vacuity: pod in slot 1 with address 11 on interface 1 loses its sandbox without a DEL (its rules stay behind);
    the address is handed to slot 2 on interface 2: the stale from-rule is replaced, not shadowing the new one *)
